@@ -34,6 +34,8 @@ func runHist(c *caseT) string {
 	b.WriteString(c.ID)
 	slots := map[int]fn{}
 	recs := map[int]*recorder{}
+	cfgs := map[int]*jsonpath.Config{}
+	cfgRecs := map[int]*recorder{}
 	type kept struct {
 		res    []interface{}
 		render string
@@ -53,11 +55,23 @@ func runHist(c *caseT) string {
 		case "parse", "retrieve":
 			rec := &recorder{}
 			var cfgp *jsonpath.Config
-			if !op.NoCfg {
+			if op.CfgRef > 0 && cfgs[op.CfgRef-1] != nil {
+				cfgp = cfgs[op.CfgRef-1]
+				rec = cfgRecs[op.CfgRef-1]
+			} else if !op.NoCfg {
 				cfg := makeConfig(op.Filters, op.Aggs, op.Acc, rec)
 				cfgp = &cfg
 			}
-			f, obs, _ := parseObs(unhex(op.Path), cfgp)
+			cfgs[k] = cfgp
+			cfgRecs[k] = rec
+			var f fn
+			var obs string
+			if cfgp != nil && (len(op.Filters2) > 0 || len(op.Aggs2) > 0) {
+				cfg2 := makeConfig(op.Filters2, op.Aggs2, false, rec)
+				f, obs, _ = parseObs2(unhex(op.Path), cfgp, &cfg2)
+			} else {
+				f, obs, _ = parseObs(unhex(op.Path), cfgp)
+			}
 			residue := jsonpath.VerifParserResidue()
 			if residue != "" {
 				obs += "!residue:" + residue
